@@ -79,9 +79,11 @@ class FormulaEnginePool:
         if channel_key in self._string_engines:
             return self._string_engines[channel_key]
 
+        # The engine's name identifies its output when it is composed with other
+        # engines, so it has to be different for each metric the formula is used with.
         builder = ResampledFormulaBuilder(
             self._namespace,
-            formula,
+            f"{formula} [{component_metric_id.value}]",
             self._channel_registry,
             self._resampler_subscription_sender,
             component_metric_id,
